@@ -202,3 +202,68 @@ CONDITIONS = [
                'thorough': {'bounds': {'REP': 12, 'EXTRA': [-1, _o('T'), _o('O', 0), _o('U')]}, 'timeout': 3000,
                             'shards': [{'rep': n} for n in range(13)], 'witness_shard': {'rep': 10}}}},
 ]
+
+
+VALIDATOR = r'''
+import sys, json, tempfile, shutil
+sys.path.insert(0, %r); sys.path.insert(0, %r)
+import logging; logging.disable(logging.CRITICAL)
+from playback.tape_recorder import TapeRecorder
+from playback.tape_cassettes.in_memory.in_memory_tape_cassette import InMemoryTapeCassette
+from playback.tape_cassettes.file_based.file_based_tape_cassette import FileBasedTapeCassette
+
+class Point(object):
+    def __init__(self, x): self.x = x
+    def __eq__(self, o): return isinstance(o, Point) and o.x == self.x
+    def __hash__(self): return 1
+
+bad = []; vec = 0
+d = tempfile.mkdtemp(prefix='pbsym-c03v-')
+try:
+    for name, cas in (('mem', InMemoryTapeCassette()), ('file', FileBasedTapeCassette(d))):
+        tr = TapeRecorder(cas); tr.enable_recording()
+        class Svc(object):
+            @tr.operation()
+            def execute(self):
+                p = Point(3); lst = [1, 2]
+                self.notify(p, p, both=(lst, lst))
+                self.notify(Point(4), [p, p], both={'a': lst, 'b': lst})
+                return p
+            @tr.intercept_output('notify')
+            def notify(self, a, b, both=None): return None
+        Svc().execute()
+        rid = cas.get_last_recording_id() if name == 'mem' else list(cas.iter_recording_ids('Svc'))[0]
+        pb = tr.play(rid, lambda rec: Svc().execute())
+        for outs, label in ((pb.recorded_outputs, 'recorded'), (pb.playback_outputs, 'replayed')):
+            m = dict((o.key, o.value) for o in outs)
+            vec += 1
+            v1 = m.get('output: notify #1.output'); v2 = m.get('output: notify #2.output')
+            ok = (v1 is not None and v1['args'] == [Point(3), Point(3)] and [list(x) for x in v1['kwargs']['both']] == [[1, 2], [1, 2]]
+                  and v2 is not None and v2['args'] == [Point(4), [Point(3), Point(3)]] and v2['kwargs']['both'] == {'a': [1, 2], 'b': [1, 2]})
+            if not ok: bad.append([name, label, repr(v1)[:120]])
+finally:
+    shutil.rmtree(d, ignore_errors=True)
+print('@@' + json.dumps({'vectors': vec, 'bad': bad}))
+'''
+
+
+def validate_models():
+    """serializer fidelity on outputs that hold the SAME instance twice (outside what the token model can see): a real
+    record -> replay with the real jsonpickle on the in-memory and file cassettes; a mismatch is a concrete C03
+    counterexample on the real code"""
+    import subprocess
+    import sys
+    import json
+    import os
+    code = VALIDATOR % (os.environ.get('PB_SRC', '/repo'), os.path.dirname(os.path.dirname(os.path.abspath(__file__))))
+    p = subprocess.run([sys.executable, '-c', code], stdout=subprocess.PIPE, stderr=subprocess.PIPE, timeout=300)
+    out = p.stdout.decode()
+    if '@@' not in out:
+        return [{'name': 'real record/replay of outputs holding one instance twice', 'vectors': 0, 'differences': -1,
+                 'error': p.stderr.decode()[-400:]}]
+    d = json.loads(out[out.index('@@') + 2:])
+    res = {'name': 'real jsonpickle: outputs holding the same instance twice are recorded and handed out intact',
+           'vectors': d['vectors'], 'differences': len(d['bad']), 'error': str(d['bad'])[:300]}
+    if d['bad']:
+        res['violation'] = {'cassette_runs': d['bad'][:2]}
+    return [res]
